@@ -34,7 +34,8 @@ struct RunInfo {
 }
 
 fn valid_connection(rng: &mut Rng) -> (Vec<u8>, usize) {
-    let buffer = *rng.pick(&[24usize, 32, 64, 128, 500, 8192, 8192]);
+    let big_skip = rng.chance(1, 25);
+    let buffer = if big_skip { 70_000 + rng.below(100_000) } else { *rng.pick(&[24usize, 32, 64, 128, 500, 8192, 8192]) };
     let eff = buffer.max(24);
     let mut bytes = Vec::new();
     for i in 0..1 + rng.below(2) {
@@ -47,11 +48,11 @@ fn valid_connection(rng: &mut Rng) -> (Vec<u8>, usize) {
             big_pairs: false,
             max_stream_records: 5,
             big_records: false,
-            extra_pct_pre: 20,
+            extra_pct_pre: if big_skip { 50 } else { 20 },
             extra_pct_stream: 25,
             tag_base: i as u8,
-            extras_pre: &gen::EXTRAS_PRE_REPLIES,
-            extras_stream: &gen::EXTRAS_STREAM_REPLIES,
+            extras_pre: if big_skip { &gen::EXTRAS_BIG } else { &gen::EXTRAS_PRE_REPLIES },
+            extras_stream: if big_skip { &gen::EXTRAS_BIG } else { &gen::EXTRAS_STREAM_REPLIES },
             marker: None,
         };
         gen::push_request(rng, &mut bytes, &spec);
